@@ -22,6 +22,76 @@ def timer_const(desc, name):
     return any(n[0] == 'agg' and n[2].endswith('Timer::' + name) for n in walk(desc))
 
 
+STATE = 'quinn_proto::connection::State'
+
+
+def state_values(ctx, *names):
+    """discriminant values of connection::State variants (fails closed: a missing variant raises)"""
+    m = {v['name']: int(v['discr']) for v in ctx.facts.adt(STATE)['variants']}
+    return [m[n] for n in names]
+
+
+def is_field(d, name):
+    """the descriptor IS the field (not merely mentions it)"""
+    return isinstance(d, tuple) and d[0] == 'field' and d[2] == name
+
+
+def field_tests(F, body, name, taken=()):
+    """(Branch, target taken when the field is false, target taken when it is true) for every branch whose (Not-peeled)
+    discriminant is exactly field `name` (or mem::take/replace of it, the consume-and-test idiom)"""
+    out = []
+    for br in branches(F, body):
+        inner, neg = peel_not(br.desc)
+        hit = is_field(inner, name)
+        if not hit and inner[0] == 'call' and inner[1].rsplit('::', 1)[-1] in taken and inner[3] and is_field(inner[3][0], name):
+            hit = True
+        if hit:
+            out.append((br, br.target(1 if neg else 0), br.target(0 if neg else 1)))
+    return out
+
+
+def only_over(body, br, bad_targets, site_bb):
+    """br dominates the site and the site cannot be reached from any of bad_targets without re-evaluating br"""
+    return body.dominates(br.bb, site_bb) and all(site_bb not in body.reachable_from(t, avoid=[br.bb]) for t in bad_targets)
+
+
+def state_switches(F, body):
+    return [br for br in branches(F, body) if br.desc[0] == 'discr' and is_field(br.desc[1], 'state')]
+
+
+def loop_item_source(d):
+    """d is the item bound by `for x in <src>` (payload of Iterator::next on <src>): returns (src descriptor, block of
+    the next() call) or None"""
+    if d[0] == 'field' and d[2] == '0' and d[1][0] == 'variant' and d[1][2] == 'Some':
+        c = d[1][1]
+        if c[0] == 'call' and c[1].rsplit('::', 1)[-1] == 'next' and len(c[3]) == 1:
+            return c[3][0], c[4]
+    return None
+
+
+def is_timer_values(d):
+    """exactly the constant Timer::VALUES (whole table: no index / range / adapter in between); `.iter()` accepted"""
+    if d[0] == 'call' and d[1].rsplit('::', 1)[-1] == 'iter' and len(d[3]) == 1:
+        d = d[3][0]
+    return d[0] == 'const' and bool(d[3]) and (d[3] == 'Timer::VALUES' or d[3].endswith('::Timer::VALUES'))
+
+
+def named_local_defs(ctx, body, name):
+    """(block, value descriptor) of every whole definition of the user-named local"""
+    out = []
+    d = describer(ctx.facts, body)
+    live = body.live_blocks()
+    for l, (ty, nm) in enumerate(body.locals):
+        if nm != name:
+            continue
+        for df in body.defs_of(l):
+            if df[0] == 'stmt' and df[1] in live:
+                out.append((df[1], d.rvalue(df[3], df[1], df[2], 0)))
+            elif df[0] == 'call' and df[1] in live:
+                out.append((df[1], d.call_desc(df[2], 0)))
+    return out
+
+
 def rule_a(ctx):
     F = ctx.facts
     dr = state_sets(ctx, 'Drained')
@@ -67,7 +137,17 @@ def rule_a(ctx):
     ht = ctx.pfn('Connection::handle_timeout')
     for e in [c for c in ev if F.root_of(c.body).id == ht.id]:
         p = must_precede(F, ht, e.bb, ['TimerTable::stop'], depth=0)
-        ctx.check(p is None, 'a', 'expired_timer_stopped_before_arm', ht, e.where(), 'timers.stop(timer) dominates the Close arm', 'the Close timer arm runs without stopping the timer first')
+        # the timer stopped is the one the arm was selected on: the argument IS the scrutinee of a discriminant switch
+        # dominating the arm (`match timer`), or the literal Timer::Close
+        scrut = [br.desc[1] for br in branches(F, ht) if br.desc[0] == 'discr' and br.bb != e.bb and ht.dominates(br.bb, e.bb)]
+        stops = [c for c in ht.calls_to('TimerTable::stop') if c.bb != e.bb]
+        same = [c for c in stops if arg_desc(F, c, 1) in scrut or arg_desc(F, c, 1) == ('agg', 'adt', 'timer::Timer::Close', (), ())]
+        # ... on every path of the current iteration (from the next() that produced the scrutinee) to the arm
+        heads = [loop_item_source(x)[1] for x in scrut if loop_item_source(x) is not None]
+        start = ht.succ[heads[-1]] if heads else [0]
+        same = same if same and path_avoiding(ht, start, [e.bb], {c.bb for c in same}) is None else []
+        ctx.check(p is None and bool(same), 'a', 'expired_timer_stopped_before_arm', ht, e.where(), 'timers.stop(timer) dominates the Close arm',
+                  'the Close timer arm runs without stopping the expired timer first (stop arguments: %s): the Close arm would run again' % [D.render(arg_desc(F, c, 1))[:80] for c in stops])
 
 
 def loop_back(body, bb):
@@ -111,8 +191,31 @@ def rule_b(ctx):
     ctx.check(bool(sct) and all(any(hp.dominates(c.bb, s.bb) for c in cc) for s in sct), 'b', 'packet_induced_close_arms_close_timer', hp, hp.where(), 'set_close_timer after close_common unless drained', 'set_close_timer missing from the packet-induced close')
     # close_common stops every timer: iterates Timer::VALUES and calls stop
     ccb = ctx.pfn('Connection::close_common')
-    ctx.check(bool(ccb.calls_to('TimerTable::stop')) and any(D.has_const(arg_desc(F, c, 0), named='VALUES') or 'VALUES' in D.render(arg_desc(F, c, 0)) for c in ccb.calls() if c.is_('IntoIterator::into_iter')),
-              'b', 'close_common_stops_all_timers', ccb, ccb.where(), 'for timer in Timer::VALUES { stop(timer) }', 'close_common no longer stops every timer in Timer::VALUES')
+    okc, whyc = False, 'no TimerTable::stop call whose argument is the item of a loop over Timer::VALUES'
+    for c in ccb.calls_to('TimerTable::stop'):
+        src = loop_item_source(arg_desc(F, c, 1))
+        if src is None:
+            continue
+        if not is_timer_values(src[0]):
+            whyc = 'the loop stopping the timers iterates %s, not the whole Timer::VALUES' % D.render(src[0])[:120]
+            continue
+        head = src[1]
+        hb = [br for br in branches(F, ccb) if br.bb != c.bb and br.desc[0] == 'discr' and br.desc[1][0] == 'call' and len(br.desc[1]) > 4 and br.desc[1][4] == head]
+        if not hb:
+            whyc = 'the Some/None test of the loop over Timer::VALUES was not found'
+            continue
+        some = hb[0].target(1)
+        # every iteration stops its timer, the loop is left only when the table is exhausted, and the loop is always entered
+        if path_avoiding(ccb, [some], [head], {c.bb}) is not None:
+            whyc = 'an iteration of the loop over Timer::VALUES can skip timers.stop'
+        elif path_avoiding(ccb, [some], ccb.return_blocks(), {head}) is not None:
+            whyc = 'the loop over Timer::VALUES can be left before the table is exhausted'
+        elif path_avoiding(ccb, [0], ccb.return_blocks(), {head}) is not None:
+            whyc = 'close_common can return without running the loop over Timer::VALUES'
+        else:
+            okc = True
+            break
+    ctx.check(okc, 'b', 'close_common_stops_all_timers', ccb, ccb.where(), 'for timer in Timer::VALUES { stop(timer) }', 'close_common no longer stops every timer in Timer::VALUES: ' + whyc)
     # no re-arming on closed connections
     for fn, fld in (('Connection::set_loss_detection_timer', 'LossDetection'), ('Connection::reset_idle_timeout', 'Idle')):
         b = ctx.pfn(fn)
@@ -125,6 +228,111 @@ def rule_b(ctx):
     est = [br for br in branches(F, rk) if D.has_call(br.desc, 'State::is_established')]
     ok = bool(sets) and bool(est) and all(all(s.bb not in rk.reachable_from(br.target(0)) for s in sets) for br in est)
     ctx.check(ok, 'b', 'keep_alive_only_when_established', rk, rk.where(), 'timers.set(KeepAlive) only if is_established()', 'keep-alive can be armed on a non-established connection')
+
+
+def reach_cut(F, body, assume, avoid=(), cut=()):
+    """prims.reach_under from the entry, additionally never using the edges in `cut`"""
+    brs = {br.bb: br for br in branches(F, body, stop_named=True)}
+    avoid, cut, seen, stack = set(avoid), set(cut), set(), [0]
+    while stack:
+        b = stack.pop()
+        if b in seen or b in avoid:
+            continue
+        seen.add(b)
+        succ = body.succ[b]
+        br = brs.get(b)
+        if br is not None:
+            inner, neg = peel_not(br.desc)
+            if inner[0] in ('local', 'param') and inner[2] in assume:
+                t = br.target(1 if (assume[inner[2]] != neg) else 0)
+                succ = [t] if t in succ else succ
+        stack.extend(x for x in succ if x not in seen and (b, x) not in cut)
+    return seen
+
+
+def call_tests(F, body, callee, arg_field):
+    """(Branch, false target, true target) of branches whose (Not-peeled) discriminant is exactly callee(self.<arg_field>)"""
+    out = []
+    for br in branches(F, body):
+        inner, neg = peel_not(br.desc)
+        if inner[0] == 'call' and (inner[1] == callee or path_matches(inner[2], callee)) and len(inner[3]) == 1 and is_field(inner[3][0], arg_field):
+            out.append((br, br.target(1 if neg else 0), br.target(0 if neg else 1)))
+    return out
+
+
+def close_flag_derivation(ctx, pt, defs, sites):
+    """reasons why the bool local `close` of poll_transmit is not derived as
+         Closed | Draining if self.close => true ;  Drained (or close not requested) => return ;  open states => false.
+    Every condition is an edge cut: "X only over edges E" = X is unreachable from the entry once the edges E are removed
+    (a match guard repeats its test per or-pattern, so no single branch need dominate).  `sites` = where a packet is
+    started or a CONNECTION_CLOSE is encoded."""
+    F = ctx.facts
+    closed, draining, drained = state_values(ctx, 'Closed', 'Draining', 'Drained')
+    why = []
+    sws = state_switches(F, pt)
+
+    def sw_edges(pred):
+        """edges (switch block, target) such that the set of State values selecting the target satisfies pred"""
+        out = set()
+        for sw in sws:
+            for t in {t for v, t in sw.edges}:
+                if pred({v for v, t2 in sw.edges if t2 == t}):
+                    out.add((sw.bb, t))
+        return out
+
+    def only_via(edges, bb):
+        return bool(edges) and bb not in pt.reachable_from(0, avoid_edges=edges)
+    isc = call_tests(F, pt, 'State::is_closed', 'state')
+    isd = call_tests(F, pt, 'State::is_drained', 'state')
+    closed_edges = sw_edges(lambda vs: vs <= {closed, draining}) | {(br.bb, t) for br, f, t in isc if t != f}
+    open_edges = sw_edges(lambda vs: not (vs & {closed, draining, drained})) | {(br.bb, f) for br, f, t in isc if t != f}
+    live_edges = {(br.bb, f) for br, f, t in isd if t != f}   # edges on which the connection is known not to be Drained
+    for sw in sws:
+        td = sw.target(drained)
+        if {v for v, t in sw.edges if t == td} == {drained}:
+            live_edges |= {(sw.bb, t) for v, t in sw.edges if t != td}
+    false_defs = set()
+    for bb, v in defs:
+        if v[0] == 'const' and str(v[2]) in ('1', 'true'):
+            if not only_via(closed_edges, bb):
+                why.append('`close = true` is not confined to the Closed/Draining edges of a test of self.state')
+        elif v[0] == 'const' and str(v[2]) in ('0', 'false'):
+            false_defs.add(bb)
+            if not only_via(open_edges, bb):
+                why.append('`close = false` is reachable in a closed state')
+        elif not (v[0] == 'call' and v[1] == 'State::is_closed' and len(v[3]) == 1 and is_field(v[3][0], 'state')):
+            why.append('`close` is computed as %s: expected constants selected by a match on self.state, or self.state.is_closed()' % D.render(v)[:80])
+    sb = {c.bb for c in sites}
+    # one close packet per request: with close == true nothing is built unless self.close was tested true
+    tests = field_tests(F, pt, 'close')
+    r = reach_cut(F, pt, {'close': True}, avoid=false_defs, cut={(br.bb, t) for br, f, t in tests if t != f})
+    if not sb or (r & sb):
+        why.append('`close = true` is not conditional on self.close: a close packet is built on every poll instead of once per request')
+    # drained: nothing is built
+    if not live_edges or (pt.reachable_from(0, avoid_edges=live_edges) & sb):
+        why.append('a Drained connection goes on to build packets')
+    return why
+
+
+def close_arms_without_frame(ctx, pt, enc):
+    """the innermost switch on self.state in front of the CONNECTION_CLOSE encode sites: from its Closed edge and from its
+    Draining edge an encode site is reachable and no path leaves the match (return / next round) without encoding"""
+    F = ctx.facts
+    closed, draining = state_values(ctx, 'Closed', 'Draining')
+    encb = {e.bb for e in enc}
+    sws = [sw for sw in state_switches(F, pt) if any(pt.dominates(sw.bb, b) and sw.bb != b for b in encb)]
+    inner = [sw for sw in sws if all(pt.dominates(o.bb, sw.bb) for o in sws)]
+    if not inner:
+        return ['no match on self.state selects the close frame']
+    why = []
+    for sw in inner:
+        for nm, v in (('Closed', closed), ('Draining', draining)):
+            t = sw.target(v)
+            if not (pt.reachable_from(t, avoid=[sw.bb]) & encb):
+                why.append('the %s arm reaches no CONNECTION_CLOSE encode' % nm)
+            elif path_avoiding(pt, [t], set(pt.return_blocks()) | {sw.bb}, encb) is not None:
+                why.append('a path through the %s arm encodes no CONNECTION_CLOSE' % nm)
+    return why
 
 
 def rule_c(ctx):
@@ -141,10 +349,54 @@ def rule_c(ctx):
               'under close == true neither the congestion test nor Pacer::delay is reachable',
               'with a close pending the congestion/pacing gate of poll_transmit is still evaluated: a window-limited closer never sends its CONNECTION_CLOSE')
     # the close flag is derived from State::Closed/Draining with self.close set; Drained returns None
-    cd = local_defs_desc(ctx, pt, 'close')
-    ctx.check(bool(cd), 'c', 'close_flag_defined', pt, pt.where(), '%d definitions of `close`' % len(cd), 'local `close` not found')
+    cd = named_local_defs(ctx, pt, 'close')
+    why = close_flag_derivation(ctx, pt, cd, pt.calls_to('Close::encode', 'ConnectionClose::encode', 'PacketBuilder::new'))
+    ctx.check(bool(cd) and not why, 'c', 'close_flag_defined', pt, pt.where(), '%d definitions of `close`: true only in Closed/Draining with self.close set, nothing defined once Drained' % len(cd),
+              'the close flag of poll_transmit is not derived as `Closed|Draining if self.close => true, Drained => return, _ => false`: ' + ('; '.join(why) or 'local `close` not found'))
     enc = pt.calls_to('Close::encode', 'ConnectionClose::encode')
-    ctx.check(len(enc) >= 2 and all(e.bb in reach for e in enc), 'c', 'close_frame_encoded_under_close', pt, pt.where(), '%d encode sites reachable under close' % len(enc), 'CONNECTION_CLOSE encoding not reachable under close == true')
+    why = close_arms_without_frame(ctx, pt, enc)
+    ctx.check(len(enc) >= 2 and all(e.bb in reach for e in enc) and not why, 'c', 'close_frame_encoded_under_close', pt, pt.where(), '%d encode sites reachable under close; the Closed and the Draining arm both encode' % len(enc),
+              'CONNECTION_CLOSE encoding not reachable under close == true' if not why else 'a close packet can be built without a CONNECTION_CLOSE frame: ' + '; '.join(why))
+
+
+def early_close_polarity(ctx, pt, cons, d):
+    """the masked ConnectionClose{APPLICATION_ERROR} is built only when the reason that would otherwise be encoded is NOT
+    transport-layer and the space is NOT Data; on that edge the stored reason is not encoded verbatim"""
+    F = ctx.facts
+    masked = [c for c in cons if D.has_const(d.operand(c.field_op('error_code'), c.bb, c.idx), named='APPLICATION_ERROR')]
+    verb = [c for c in pt.calls_to('Close::encode')]
+    if not masked or not verb:
+        return ['masked construction / verbatim Close::encode not found']
+    reasons = [arg_desc(F, c, 0) for c in verb]
+    tl = []
+    for br in branches(F, pt):
+        inner, neg = peel_not(br.desc)
+        if inner[0] == 'call' and (inner[1] == 'Close::is_transport_layer' or path_matches(inner[2], 'Close::is_transport_layer')) and inner[3] and inner[3][0] in reasons:
+            tl.append((br, br.target(0 if neg else 1), br.target(1 if neg else 0)))   # (branch, transport edge, application edge)
+    sp = []
+    for br in branches(F, pt):
+        for truth in (True, False):
+            rel = relation_on(br.desc, truth)
+            if rel is not None and rel[0] == 'Eq' and any(x[0] == 'agg' and x[2].endswith('SpaceId::Data') for x in rel[1:3]) and not all(x[0] == 'agg' for x in rel[1:3]):
+                sp.append((br, br.target(1 if truth else 0)))   # (branch, edge on which space == Data)
+    data_i = [int(v['discr']) for v in F.adt('quinn_proto::packet::SpaceId')['variants'] if v['name'] == 'Data']
+    for br in branches(F, pt):
+        if br.desc[0] == 'discr' and not D.has_field(br.desc, 'state') and any(x[0] == 'agg' and 'SpaceId::' in x[2] for x in walk(br.desc)) and any(v == data_i[0] for v, t in br.edges):
+            sp.append((br, br.target(data_i[0])))
+    why = []
+    if not tl:
+        why.append('no branch on is_transport_layer() of the encoded reason')
+    for c in masked:
+        if tl and not any(only_over(pt, br, [t_edge], c.bb) for br, t_edge, a_edge in tl):
+            why.append('the masked frame is built for transport-layer reasons (test inverted or not dominating)')
+        if not any(only_over(pt, br, [data_edge], c.bb) for br, data_edge in sp):
+            why.append('the masked frame can be built in the Data space')
+    for br, t_edge, a_edge in tl:
+        if any(pt.dominates(br.bb, c.bb) for c in masked):
+            p = path_avoiding(pt, [a_edge], {c.bb for c in verb} | set(pt.return_blocks()) | {br.bb}, {c.bb for c in masked})
+            if p is not None:
+                why.append('an application-layer reason in an Initial/Handshake packet is not masked')
+    return why
 
 
 def rule_d(ctx):
@@ -168,8 +420,8 @@ def rule_d(ctx):
     d = describer(F, pt)
     ok = any(D.has_const(d.operand(c.field_op('error_code'), c.bb, c.idx), named='APPLICATION_ERROR') or 'APPLICATION_ERROR' in D.render(d.operand(c.field_op('error_code'), c.bb, c.idx)) for c in cons)
     ctx.check(ok, 'd', 'early_app_close_masked', pt, pt.where(), 'ConnectionClose{APPLICATION_ERROR} for pre-1-RTT application close', 'application close reasons can leak into Initial/Handshake packets')
-    itl = [br for br in branches(F, pt) if D.has_call(br.desc, 'Close::is_transport_layer')]
-    ctx.check(bool(itl), 'd', 'early_app_close_test', pt, pt.where(), 'space == Data || reason.is_transport_layer()', 'the transport-layer test for early close frames is gone')
+    why = early_close_polarity(ctx, pt, cons, d)
+    ctx.check(not why, 'd', 'early_app_close_test', pt, pt.where(), 'space == Data || reason.is_transport_layer() -> verbatim reason, else masked', 'the transport-layer test for early close frames is gone or has the wrong polarity: ' + '; '.join(why))
 
 
 def rule_e(ctx):
@@ -226,8 +478,10 @@ def rule_f(ctx):
     who_may_call(ctx, 'f', 'reset_idle_timeout_callers', ['Connection::reset_idle_timeout'], ['Connection::on_packet_authenticated', 'PacketBuilder::finish_and_track'], floor=2)
     ft = ctx.pfn('PacketBuilder::finish_and_track')
     for c in ft.calls_to('Connection::reset_idle_timeout'):
-        brs = [br for br in branches(F, ft) if D.has_field(br.desc, 'permit_idle_reset') and ft.dominates(br.bb, c.bb)]
-        ctx.check(bool(brs), 'f', 'send_restarts_idle_only_when_permitted', ft, c.where(), 'guarded by permit_idle_reset', 'sending restarts the idle timer unconditionally (a one-sided sender would never time out)')
+        # the call lies on the TRUE edge of a dominating test of exactly conn.permit_idle_reset
+        brs = [br for br, f_tgt, t_tgt in field_tests(F, ft, 'permit_idle_reset', taken=('take', 'replace')) if only_over(ft, br, [f_tgt], c.bb)]
+        ctx.check(bool(brs), 'f', 'send_restarts_idle_only_when_permitted', ft, c.where(), 'reached only over permit_idle_reset == true',
+                  'sending restarts the idle timer although permit_idle_reset is false / untested (a one-sided sender would never time out)')
     # the permission is re-armed only by an authenticated packet from the peer and consumed by the next ack-eliciting send
     n_true = n_false = 0
     for w, v in store_values(ctx, 'connection::Connection', 'permit_idle_reset'):
